@@ -22,8 +22,17 @@ def main() -> int:
     res = Result()
     try:
         mod.run_shard(spec, res)
-    except BaseException:  # harness failure: inconclusive, never a verdict
-        res.inconclusive.append('harness error in shard %s: %s' % (spec.get('shard'), traceback.format_exc()[-1500:]))
+    except BaseException:
+        tb = traceback.format_exc()
+        from kverif.common import REPO
+        if (REPO.rstrip('/') + '/kfac/') in tb:
+            # the code under test raised during a use the workload considers valid (and the check did not classify it itself):
+            # the guarantee was not delivered - a violation candidate, replayable by re-running this shard
+            ls = tb.strip().splitlines()
+            fi = max([i for i, l in enumerate(ls) if l.startswith('  File ')] or [0])
+            res.violation('a valid use raised inside kfac (not classified by the check): ' + ' | '.join(x.strip() for x in ls[fi:fi + 4]), dict(shard_spec=spec))
+        else:  # harness failure: inconclusive, never a verdict
+            res.inconclusive.append('harness error in shard %s: %s' % (spec.get('shard'), tb[-1500:]))
     with open(outfile, 'w') as f:
         json.dump(res.to_json(), f)
     return 0
